@@ -142,8 +142,19 @@ pub fn build(e: &mut Ent, kind: Option<u8>, vecn: Option<u32>) -> (StepCase, Tag
             tag.nontrivial_text = text.iter().any(|c| !(0x20..=0x7e).contains(c));
         }
         1 => {
-            let v = vecn.unwrap_or_else(|| match e.below(4) {
+            let v = vecn.unwrap_or_else(|| match e.below(5) {
                 0 => e.u32(),
+                // a valid vector number in the low bits with anything above it (a number that is shifted, scaled or
+                // truncated before it is checked passes for the vector): must be ignored like any other number
+                1 => {
+                    let n = 1 + e.below(63);
+                    match e.below(4) {
+                        0 => n | (1u32 << (6 + e.below(26))),
+                        1 => n | 0x8000_0000,
+                        2 => n | 0x4000_0000,
+                        _ => n | ((e.u16() as u32).max(1) << 16),
+                    }
+                }
                 _ => e.below(256),
             });
             let addr = (e.data_addr(&[Region::Ram, Region::Dram], 2, 2)) | if e.chance(1, 2) { 0 } else { (e.below(0xa6) as u32) << 24 };
